@@ -144,7 +144,10 @@ func (g *Gen) Next(m *Model, mounted []string) Op {
 		default:
 			op.Key = "kx"
 		}
-		if len(freeNames) > 0 && r.Chance(88, 100) {
+		if r.Chance(45, 100) {
+			g.keyN++
+			op.Name = fmt.Sprintf("c%d", g.keyN)
+		} else if len(freeNames) > 0 && r.Chance(80, 100) {
 			op.Name = g.pick(freeNames)
 		} else if len(all) > 0 {
 			op.Name = g.pick(all)
